@@ -307,7 +307,9 @@ func selfTestUnits(tier string) []Unit {
 
 func init() {
 	Props["SELF"] = &PropMeta{
-		Units:       func(t string) []Unit { return append(pruneSelfTestUnits(t), selfTestUnits(t)...) },
+		Units: func(t string) []Unit {
+			return append(append(syncSelfTestUnits(t), pruneSelfTestUnits(t)...), selfTestUnits(t)...)
+		},
 		Rule:        "self-test (not a property of originium): every script of up to 4 (thorough: 5) file operations from a menu of opens with six flag combinations, write, read, seek, sync, close, truncate, remove, rename, stat and readdir on two names is run on the in-memory file system shim and on the real os in a temporary directory; transcripts (error classes, byte counts, data, listings, final contents) must be identical",
 		Assumptions: []string{"the real file system of the sandbox (ext4/overlay) is the reference"},
 		QuickS:      120, ThoroughS: 900,
